@@ -214,7 +214,13 @@ Definition c10_one (c : pipe_case) (w : raw_req) (o : obs_resp) : bool :=
         | Some ROptions => true
         | _ => Nat.leb 400 (ob_status o) && Nat.ltb (ob_status o) 500 && negb (ob_has_data o) && quietb (ob_events o)
         end
-   else true).
+   else true)
+  (* a request that reaches the pipeline with text that is no GraphQL document, or with no operation in it at
+     all (an absent or empty query), is answered with an error only, whatever was served before it *)
+  && (if reaches_pipeline c w && (let d := docs_of c (r_q (w_req w)) in negb (d_parses d) || match d_ops d with [] => true | _ => false end)
+         && negb (match r_reject_param (w_req w) with Some i => has_hook (pc_exts c) e_param i | None => false end)
+      then negb (ob_has_data o) && negb (has_resolver (ob_events o)) && Nat.leb 400 (ob_status o)
+      else true).
 Definition c10_monitor (c : pipe_case) : bool :=
   forallb (fun wo => c10_one c (fst wo) (snd wo)) (combine (pc_reqs c) (pc_obs c)).
 
